@@ -492,7 +492,7 @@ func (x *Xlat) execRangeMap(st *State, fr *Frame, s *ast.RangeStmt, label string
 	hkeys := x.havocLoop(st, fr, out, s.Body)
 	seen := x.ctx.Fresh("seen", setSort)
 	st.env[gk] = seen
-	domH := x.get(st, mapDomKey(ks), ArrSort(SRef, ArrSort(ks, SBool)))
+	domH := x.get(st, mapDomKey(ks, x.tm.SortOf(elemT)), ArrSort(SRef, ArrSort(ks, SBool)))
 	dom := Sel(domH, m)
 	kb := Const("k!", ks)
 	// visited keys are in the domain
